@@ -347,11 +347,12 @@ class Grammar:
 
         starting_symbol = self.starting_symbol
         starting_symbol.__dict__["__gengy__"]["weight"] = weights[starting_symbol]
-        nodes = list()
-        for node in self.considered_subtypes:
-            if node in weights:
+        # Persist the normalised weight of every registered class, not only of the ones passed explicitly:
+        # productions discovered through inheritance or field types are normalised together with their siblings.
+        for node in weights:
+            if node is not starting_symbol and "__gengy__" in node.__dict__:
                 node.__dict__["__gengy__"]["weight"] = weights[node]
-            nodes.append(node)
+        nodes = list(self.considered_subtypes)
         self.__init__(starting_symbol, nodes, self.expansion_depthing)
         self.register_type(starting_symbol)
         self.preprocess()
